@@ -143,7 +143,7 @@ pub fn exercise(c: &Case) -> Result<Result<bool, String>, PanicInfo> {
 }
 
 pub fn judge(c: &Case, cx: &mut Cx) -> Verdict {
-    if c.api > 14 || c.pattern.len() > 2_000 || c.input.len() > 2_000 {
+    if c.api > 14 || c.pattern.len() > 1 << 22 || c.input.len() > 1 << 22 {
         return Verdict::Skip("malformed case");
     }
     if !c.input.is_ascii() || !c.pattern.is_ascii() {
@@ -207,6 +207,59 @@ impl Prop for Short {
         Ok(Case { api: u.int_in_range(0..=2u8)?, pattern, input })
     }
     fn check(c: &Case, cx: &mut Cx) -> Verdict {
+        judge(c, cx)
+    }
+}
+
+/// Long texts: field widths, digit runs, lists and padding whose *length* sits at and around the
+/// thresholds where a length is stored in a narrower type or compared with a limit
+/// (2^8, 2^16 and their neighbours; quick tier also 2^4..2^12), in patterns and in inputs.
+pub struct Long;
+pub const LENGTHS: [usize; 24] = [15, 16, 17, 31, 32, 33, 63, 64, 65, 127, 128, 129, 255, 256, 257, 1023, 1024, 1025, 4095, 4096, 4097, 65_535, 65_536, 65_537];
+fn long_case(kind: u8, sym: char, len: usize, api: u8) -> Case {
+    let rep = |c: &str, n: usize| c.repeat(n);
+    match kind {
+        // one symbol repeated: format renders it, parse reads a digit run of the same length
+        0 => Case { api, pattern: rep(&sym.to_string(), len), input: rep("0", len - 1) + "7" },
+        // ordinary pattern, very long digit run / fraction / padding in the input
+        1 => Case { api, pattern: "yyyy-MM-dd".into(), input: format!("{}-05-02", rep("2", len)) },
+        2 => Case { api, pattern: String::new(), input: format!("2022-05-02T15:30:20.{}Z", rep("1", len)) },
+        3 => Case { api, pattern: String::new(), input: format!("2022-05-02T15:30:20.5+{}:00", rep("0", len)) },
+        4 => Case { api, pattern: String::new(), input: format!("{} * * * *", vec!["30"; len / 3 + 1].join(",")) },
+        5 => Case { api, pattern: String::new(), input: format!("0{}0 * * *", rep(" ", len)) },
+        6 => Case { api, pattern: String::new(), input: format!("*/{} * * * *", rep("1", len)) },
+        // long literal / quoted text around one field
+        7 => Case { api, pattern: format!("'{}'{}", rep("q", len), sym), input: format!("{}1", rep("q", len)) },
+        _ => Case { api, pattern: format!("{}{}", sym, rep("-", len)), input: format!("1{}", rep("-", len)) },
+    }
+}
+impl Prop for Long {
+    type Case = Case;
+    const NAME: &'static str = "C14.length_thresholds";
+    const BYTES: usize = 32;
+    fn gen(u: &mut Unstructured<'_>) -> arbitrary::Result<Case> {
+        let len = (*u.choose(&LENGTHS[..21])? as i64 + u.range_i64(-2, 2)?).max(1) as usize;
+        let kind = u.int_in_range(0..=8u8)?;
+        let syms = c11::syms_of(Kind::DateTime);
+        let sym = *u.choose(&syms)?;
+        let api = match kind {
+            0 | 7 | 8 => {
+                let date = fmt::DATE_SYMS.contains(&sym);
+                *u.choose(if date { &[0u8, 2, 9, 11] } else { &[1u8, 2, 10, 11] })?
+            }
+            1 => *u.choose(&[0u8, 2, 3])?,
+            2 | 3 => *u.choose(&[5u8, 6, 14])?,
+            _ => *u.choose(&[7u8, 8])?,
+        };
+        Ok(long_case(kind, sym, len, api))
+    }
+    fn check(c: &Case, cx: &mut Cx) -> Verdict {
+        if c.pattern.len() > 255 || c.input.len() > 255 {
+            cx.nt("text_longer_than_255_bytes");
+        }
+        if c.pattern.len() > 65_535 || c.input.len() > 65_535 {
+            cx.nt("text_longer_than_65535_bytes");
+        }
         judge(c, cx)
     }
 }
@@ -559,6 +612,38 @@ pub fn run(env: &mut Env) {
         maxlen,
         patterns.len()
     ));
+    // (1c) length thresholds: every symbol x every length atom through format and parse; the
+    // pattern-less readers with digit runs, lists and padding of those lengths
+    let mut longs: Vec<Case> = Vec::new();
+    for &len in LENGTHS.iter() {
+        if !t && len > 4097 && len != 65_536 {
+            continue;
+        }
+        for &sym in &c11::syms_of(Kind::DateTime) {
+            let date = fmt::DATE_SYMS.contains(&sym);
+            for &api in if date { &[0u8, 2, 9, 11] } else { &[1u8, 2, 10, 11] } {
+                longs.push(long_case(0, sym, len, api));
+                if len <= 4097 {
+                    longs.push(long_case(7, sym, len, api));
+                    longs.push(long_case(8, sym, len, api));
+                }
+            }
+        }
+        for api in [0u8, 2, 3] {
+            longs.push(long_case(1, 'y', len, api));
+        }
+        for api in [5u8, 6, 14] {
+            longs.push(long_case(2, 'y', len, api));
+            longs.push(long_case(3, 'y', len, api));
+        }
+        for api in [7u8, 8] {
+            for kind in 4..=6u8 {
+                longs.push(long_case(kind, 'y', len, api));
+            }
+        }
+    }
+    env.run_list::<Long>(longs);
+    env.run_random::<Long>(if t { 200_000 } else { 20_000 });
     // (2) grammar-aware + mutational
     env.run_random::<Mutated>(if t { 20_000_000 } else { 3_000_000 });
     env.run_random::<Short>(if t { 2_000_000 } else { 300_000 });
